@@ -20,6 +20,10 @@ fn main() {
         ("c20", "replay") => yv::c20::replay(&args),
         ("c04", "record") => yv::c04::record(&args),
         ("c04", "replay") => yv::c04::replay(&args),
+        ("c06", "record") => yv::c06::record(&args),
+        ("c06", "replay") => yv::c06::replay(&args),
+        ("c02", "record") => yv::c02::record(&args),
+        ("c02", "replay") => yv::c02::replay(&args),
         ("c18", "record") => yv::c18::record(&args),
         ("c18", "replay") => yv::c18::replay(&args),
         _ => { eprintln!("unknown command {:?}", &a[..2]); std::process::exit(2); }
